@@ -65,6 +65,9 @@ SELECTORS = [
     # typed matchers
     ("Type.string == 'x'", "type-eq", "both"), ("Type.varint > 1", "type-gt", "both"),
     ("'a' in Type.string", "type-in", "both"), ("Type.string == 'a' or Type.varint == 3", "type-or", "both"),
+    ("Type.string == 'z'", "type-eq-z", "both"), ("'z' in Type.string", "type-in-z", "both"), ("Type.varint == 3", "type-eq-varint", "both"),
+    ("Type.uri.filename == 'b'", "type-attr", "both"), ("field_contains(r, Type.string, ['z'])", "type-as-field-list", "both"),
+    ("Type.string != 'a'", "type-ne", "both"),
     # generator expressions over list fields
     ("any(x == 1 for x in r.il)", "any-gen", "both"), ("all(x > 0 for x in r.il)", "all-gen", "both"),
     ("any(e == 'x' for e in r.sl)", "any-gen-str", "both"),
@@ -186,6 +189,8 @@ def _vals(rnd, names):
             out[k] = rnd.choice(["/tmp/x", "a/b", None])
         elif k == "u":
             out[k] = rnd.choice([0, 7, 65535, None])
+        elif k == "link":
+            out[k] = rnd.choice(["http://h/a/b", "http://h/x", None, "file:///z"])
     return out
 
 
@@ -203,6 +208,10 @@ def make_sequence(reader, seed, idx, tier):
         # per attribute name shows up as history dependence
         from flow.record import GroupedRecord, RecordDescriptor
         N = RecordDescriptor("c10/nest", [("record", "sub"), ("varint", "k")])
+        # a "newer version" of a record type: SAME name, other fields (anything remembered per type NAME goes wrong)
+        D = dict(D)
+        D["X"] = RecordDescriptor("c10/a", [("varint", "n"), ("string", "s"), ("string", "other"), ("uri", "link")])
+        D["Y"] = RecordDescriptor("c10/b", [("string", "s"), ("varint", "m"), ("string", "other"), ("varint", "n")])
 
         def mk(k):
             d = D[k]
@@ -215,7 +224,8 @@ def make_sequence(reader, seed, idx, tier):
             return N(sub=(mk(k) if k else None), k=rnd.choice([0, 1, 2]), _generated=GEN_TS)
         rounds = []
         for _ in range(2):
-            block = [grp("B"), grp("C"), grp("A"), grp("BC"), grp("CA"), nest("B"), nest("C"), nest("A"), nest(None), mk("A"), mk("B"), mk("C")]
+            block = [grp("B"), grp("C"), grp("A"), grp("BC"), grp("CA"), grp("X"), grp("YC"), nest("B"), nest("C"), nest("A"), nest("X"),
+                     nest(None), mk("A"), mk("B"), mk("C"), mk("X"), mk("Y"), mk("X"), mk("Y")]
             rnd.shuffle(block)
             rounds += block
         # both orders of every (lacking, having) pair are present: the second round repeats all compositions
@@ -324,16 +334,18 @@ def decoded_items(reader, path, nbase):
 def read_all(uri, selector=None, use_selector=False):
     from flow.record import RecordReader
     out, err = [], None
-    rd = RecordReader(uri, selector=selector) if use_selector else RecordReader(uri)
+    rd = None
     try:
         try:
+            rd = RecordReader(uri, selector=selector) if use_selector else RecordReader(uri)
             for r in rd:
                 out.append(r)
         except Exception as e:  # noqa
             err = type(e).__name__
     finally:
         try:
-            rd.close()
+            if rd is not None:
+                rd.close()
         except Exception:  # noqa
             pass
     return out, err
@@ -366,6 +378,82 @@ def outcome(selobj, rec):
         return ("E", type(e).__name__)
 
 
+import operator as _operator
+
+# selector text -> (field type, attribute path, operator(value, constant), constant)
+TYPE_ORACLES = {
+    "Type.string == 'x'": ("string", [], _operator.eq, "x"), "Type.string == 'z'": ("string", [], _operator.eq, "z"),
+    "Type.string != 'a'": ("string", [], _operator.ne, "a"), "Type.varint > 1": ("varint", [], _operator.gt, 1),
+    "Type.varint == 3": ("varint", [], _operator.eq, 3), "'a' in Type.string": ("string", [], _operator.contains, "a"),
+    "'z' in Type.string": ("string", [], _operator.contains, "z"), "Type.uri.filename == 'b'": ("uri", ["filename"], _operator.eq, "b"),
+}
+_MISSING = object()
+
+
+def type_truth(rec, ftype, attrs, op, const):
+    """What `Type.<ftype>[.attrs] <op> const` means for THIS record: some value of a field of that type -- by the
+    record's own descriptor -- or of a nested record satisfies the comparison.  Independent of the selector module."""
+    for t, name in rec._desc.get_field_tuples():
+        if t != ftype:
+            continue
+        obj = getattr(rec, name, _MISSING)
+        for a in attrs:
+            if obj is _MISSING:
+                break
+            obj = _MISSING if obj is None else getattr(obj, a, _MISSING)
+        if obj is _MISSING:
+            continue
+        if op(obj, const):
+            return True
+    for t, name in rec._desc.get_field_tuples():
+        if t == "record":
+            sub = getattr(rec, name)
+            if sub is not None and type_truth(sub, ftype, attrs, op, const):
+                return True
+        elif t == "record[]":
+            for sub in getattr(rec, name) or []:
+                if type_truth(sub, ftype, attrs, op, const):
+                    return True
+    return False
+
+
+def type_outcome(text, rec):
+    ftype, attrs, op, const = TYPE_ORACLES[text]
+    try:
+        return ("V", bool(type_truth(rec, ftype, attrs, op, const)))
+    except Exception as e:  # noqa
+        return ("E", type(e).__name__)
+
+
+def reverse_outcomes(p, pairs):
+    """In ANOTHER process: read the input without selector and match the records in REVERSE order, each on a brand-new
+    selector object -> {(text, form): [outcome per record, in file order]}.  State kept anywhere in the process (module
+    level caches) sees the record types in the opposite order of first use."""
+    import subprocess
+    import sys
+    req = json.dumps(dict(uri=p.uri, pairs=[[t, f] for t, f in pairs]))
+    r = subprocess.run([sys.executable, "-c", "from vf.props import c10; c10._reverse_main()"], input=req, capture_output=True,
+                       text=True, env=core.env_for_repo(), timeout=600)
+    if r.returncode != 0:
+        raise RuntimeError("reverse-order process failed: " + r.stderr[-400:])
+    out = json.loads(r.stdout)
+    return {(t, f): [tuple(o) for o in lst] for t, f, lst in out}
+
+
+def _reverse_main():
+    import sys
+    req = json.loads(sys.stdin.read())
+    base, err = read_all(req["uri"])
+    res = []
+    for text, form in reversed(req["pairs"]):
+        outs = [None] * len(base)
+        for i in reversed(range(len(base))):
+            _, s1 = make_form(text, form)
+            outs[i] = list(outcome(s1, base[i]))
+        res.append([text, form, outs])
+    sys.stdout.write(json.dumps(res))
+
+
 def forms_for(engines):
     return FORMS if engines == "both" else ["compiled", "recompiled"]
 
@@ -393,7 +481,7 @@ def prepare(workdir, reader, seed, idx, tier):
     return Prepared(reader, idx, seq, uri, path)
 
 
-def run_case(p, text, form, seed):
+def run_case(p, text, form, seed, rev=None):
     """-> dict(problem=None|str, detail=..., outcomes=[...], got_idx=[...], raised=bool, nontrivial=bool)"""
     res = dict(problem=None, detail=None)
     # 1. with the selector
@@ -436,6 +524,26 @@ def run_case(p, text, form, seed):
     again_out = [outcome(s3, r) for r in base2]          # file order, going on after a raise
     again2_out = [outcome(s3, r) for r in base2]         # the same object a second time over all records
     res.update(outcomes=fresh_out, want_idx=None)
+    # ground truth that does not go through the selector module (a fresh selector object is no witness against
+    # state shared by all selector objects of the process)
+    if text in TYPE_ORACLES:
+        for i, r in enumerate(base2):
+            t = type_outcome(text, r)
+            if t != fresh_out[i]:
+                res.update(problem="match() depends on what was matched before",
+                           detail=dict(index=i, from_the_records_own_descriptor=list(t), fresh_selector=list(fresh_out[i]),
+                                       how="a brand-new selector object disagrees with the meaning of the Type matcher computed from the "
+                                           "record's own descriptor (state shared between selector objects of the process)"))
+                return res
+    if rev is not None and (text, form) in rev:
+        lst = rev[(text, form)]
+        if lst != fresh_out:
+            i = next((k for k in range(min(len(lst), len(fresh_out))) if lst[k] != fresh_out[k]), 0)
+            res.update(problem="match() depends on what was matched before",
+                       detail=dict(index=i, this_process=list(fresh_out[i]) if fresh_out else None, other_process=list(lst[i]) if lst else None,
+                                   how="another process that matches the same records in reverse order (fresh selector object per record) "
+                                       "gets another result"))
+            return res
     for name, lst in (("in a shuffled order on one selector object", shuf_out), ("in file order on one selector object", again_out),
                       ("a second time on the same selector object", again2_out)):
         if lst != fresh_out:
@@ -536,9 +644,13 @@ def impl_pass(ctx, reason=None, collect=True):
                 ctx.notes.append("input %s/%d: two unfiltered readings differ -- skipped" % (reader, idx))
                 continue
             exercised[reader] = exercised.get(reader, 0) + 1
-            for text, label, engines in selectors_for(ctx.seed, ctx.tier):
+            sels = selectors_for(ctx.seed, ctx.tier)
+            rev = None
+            if reader == "stream":
+                rev = reverse_outcomes(p, [(t, f) for t, _, e in sels for f in forms_for(e)])
+            for text, label, engines in sels:
                 for form in forms_for(engines):
-                    r = run_case(p, text, form, ctx.seed)
+                    r = run_case(p, text, form, ctx.seed, rev)
                     if r["problem"]:
                         ctx.count_case((reader, label, form, idx), nontrivial=True)
                         if r["problem"].startswith("harness"):
@@ -662,7 +774,8 @@ def replay(obj):
     c = _Ctx()
     try:
         p = prepare(str(c.work), obj["reader"], obj["seed"], obj["sequence"], obj.get("tier", "quick"))
-        r = run_case(p, obj["selector"], obj["form"], obj["seed"])
+        rev = reverse_outcomes(p, [(obj["selector"], obj["form"])]) if obj["reader"] == "stream" else None
+        r = run_case(p, obj["selector"], obj["form"], obj["seed"], rev)
         print("replay reader=%s sequence=%d selector=%r form=%s" % (obj["reader"], obj["sequence"], obj["selector"], obj["form"]))
         for i, x in enumerate(p.base):
             print("  record %d: %r" % (i, x))
